@@ -58,7 +58,8 @@ def u_gzip(c):
     first = c.choose("first-chunk-size", [0, 1023, 1024, 5000])
     more = c.choose("further-chunks", [(), (0,), (700,), (3000, 1), (1, 0, 700)])
     finishing_first = len(more) == 0
-    has_ce, has_cl, has_vary = c.choose("preset-headers(content-encoding,content-length,vary)", [(False, False, False), (True, False, False), (False, True, False), (False, False, True), (True, True, True)])
+    has_ce, has_cl, has_vary = c.choose("preset-headers(content-encoding,content-length,vary)", [(False, False, None), (True, False, None), (False, True, None), (False, False, "Cookie"), (True, True, "Cookie"),
+                                                                                                         (False, False, "X-Accept-Encoding-Policy"), (False, False, "Cookie, X-Upstream-Accept-Encoding"), (False, False, "accept-encoding")])
     req = types.SimpleNamespace(headers=httputil.HTTPHeaders({"Accept-Encoding": ae} if ae is not None else {}))
     t = W.GZipContentEncoding.__new__(W.GZipContentEncoding)
     c.call(c.fn(M, "GZipContentEncoding.__init__"), t, req)
@@ -70,8 +71,8 @@ def u_gzip(c):
     total = first + sum(more)
     if has_cl:
         h["Content-Length"] = str(total)
-    if has_vary:
-        h["Vary"] = "Cookie"
+    if has_vary is not None:
+        h["Vary"] = has_vary
 
     def blob(n, tag):
         return (bytes([65 + tag]) * 50 + bytes(range(256)) * 20)[:n] if n else b""
@@ -86,7 +87,8 @@ def u_gzip(c):
     c.cover("gzip/%s" % ("on" if want else "off"))
     enc = h2.get("Content-Encoding")
     c.oblige("post/compresses-exactly-when-accepted-compressible-worthwhile-and-not-already-encoded", (enc == "gzip") == want and (has_ce or want or enc is None))
-    c.oblige("post/vary-includes-accept-encoding", "Accept-Encoding" in [x.strip() for x in h2.get("Vary", "").split(",")] and (not has_vary or h2["Vary"].startswith("Cookie")))
+    c.oblige("post/vary-includes-accept-encoding", "accept-encoding" in [x.strip().lower() for x in h2.get("Vary", "").split(",")]
+             and (has_vary is None or [x.strip() for x in h2["Vary"].split(",")][:len(has_vary.split(","))] == [x.strip() for x in has_vary.split(",")]))
     c.oblige("post/status-and-other-headers-untouched", status == 200 and h2.get("Content-Type") == ctype)
     decodable_so_far = True
     for i, n in enumerate(more):
@@ -151,10 +153,13 @@ def standin(tier, seed):
         prog = PROGRAMS[pi]
         sizes = [rng.choice(SIZES) for _ in prog]
         written = []
+        preset_vary = rng.choice([None, None, "Cookie", "X-Accept-Encoding-Policy", "Origin, X-Upstream-Accept-Encoding", "accept-encoding"])
 
         class H(W.RequestHandler):
             def get(self):
                 self.set_header("Content-Type", ct)
+                if preset_vary is not None:
+                    self.set_header("Vary", preset_vary)
                 body_total = sum(s for op, s in zip(prog, sizes) if op == "w")
                 k = 0
                 for op, s in zip(prog, sizes):
@@ -191,7 +196,9 @@ def standin(tier, seed):
         nontriv.add((pi, ct, ae, method, version))
         vary = ",".join(hdrs.get("vary", []))
         if "accept-encoding" not in [x.strip().lower() for x in vary.split(",")]:
-            fail("Vary does not include Accept-Encoding: %r" % vary, program=prog, ct=ct, ae=ae)
+            fail("Vary does not include Accept-Encoding: %r" % vary, program=prog, ct=ct, ae=ae, preset_vary=preset_vary)
+        if preset_vary is not None and not all(m.strip().lower() in [x.strip().lower() for x in vary.split(",")] for m in preset_vary.split(",")):
+            fail("the handler's own Vary members were dropped: %r" % vary, program=prog, ct=ct, ae=ae, preset_vary=preset_vary)
         enc = hdrs.get("content-encoding", [None])[0]
         compressible = ct.startswith("text/") or ct.split(";")[0] in W.GZipContentEncoding.CONTENT_TYPES
         if enc == "gzip" and not (compressible and ae is not None and "gzip" in ae):
